@@ -276,8 +276,15 @@ class FluidPropertyInterExtra(FluidProperty):
                     t_upper_k, t_lower_k)
 
         """
-        mean = (self.prop_getter(upper_limit_arg) + self.prop_getter(upper_limit_arg)) / 2
-        return mean * (upper_limit_arg-lower_limit_arg)
+        return self._antiderivative(upper_limit_arg) - self._antiderivative(lower_limit_arg)
+
+    def _antiderivative(self, arg):
+        # exact antiderivative of the piecewise linear (and linearly extrapolated) property
+        x, y = self.prop_getter.x, self.prop_getter.y
+        arg = np.asarray(arg.values if isinstance(arg, pd.Series) else arg, dtype=np.float64)
+        cumulated = np.concatenate(([0.], np.cumsum((x[1:] - x[:-1]) * (y[1:] + y[:-1]) / 2)))
+        seg = np.clip(np.searchsorted(x, arg, side="right") - 1, 0, len(x) - 2)
+        return cumulated[seg] + (arg - x[seg]) * (y[seg] + self.prop_getter(arg)) / 2
 
     @classmethod
     def from_path(cls, path, method="interpolate_extrapolate"):
@@ -461,14 +468,14 @@ class FluidPropertyLinear(FluidProperty):
             ul = self.offset * upper_limit_arg.values + 0.5 * self.slope * np.power(
                 upper_limit_arg.values, 2)
         else:
-            ul = self.offset * np.array(upper_limit_arg) + 0.5 * self.slope * np.array(
-                np.power(upper_limit_arg.values, 2))
+            ul = self.offset * np.array(upper_limit_arg) + 0.5 * self.slope * np.power(
+                np.array(upper_limit_arg), 2)
         if isinstance(lower_limit_arg, pd.Series):
             ll = self.offset * lower_limit_arg.values + 0.5 * self.slope * np.power(
                 lower_limit_arg.values, 2)
         else:
-            ll = self.offset * np.array(lower_limit_arg) + 0.5 * self.slope * np.array(
-                np.power(lower_limit_arg.values, 2))
+            ll = self.offset * np.array(lower_limit_arg) + 0.5 * self.slope * np.power(
+                np.array(lower_limit_arg), 2)
         return ul - ll
 
     @classmethod
